@@ -57,10 +57,15 @@ type Writers struct {
 	// FaultyWrite: offer "e<i>:<op>", a local write during which the write of the cached local head fails; the
 	// call may fail (then the world remembers that an unacknowledged entry may sit in the log) or succeed
 	FaultyWrite bool
-	Gated      bool // gate the observer's replication fetches: completion order becomes explorer choice
-	Addr       string
-	replicate  []bool
-	pubkeys    []string
+	// AbortedLoad: offer "K<i>", a Load on the running store whose context is already cancelled (it fails)
+	AbortedLoad bool
+	// PartialReload: offer "P<i>" for the observer: restart + Load(1), so that it holds only the newest entry and
+	// later announcements of older entries merge below its heads
+	PartialReload bool
+	Gated       bool // gate the observer's replication fetches: completion order becomes explorer choice
+	Addr        string
+	replicate   []bool
+	pubkeys     []string
 	// EmitHooks run synchronously inside every event-bus emission of replica i's instance
 	EmitHooks []func(w *Writers, i int, evt interface{})
 	mu        sync.Mutex
@@ -72,9 +77,9 @@ type Writers struct {
 	OnClose   []func(w *Writers)
 	// Pumps let slow subscribers of the harness read while a write call is still in progress (a write may
 	// block on a full subscriber buffer); each returns whether it made progress
-	Pumps []func(w *Writers) bool
-	Before    []func(w *Writers, action string)
-	After     []func(w *Writers, action string)
+	Pumps  []func(w *Writers) bool
+	Before []func(w *Writers, action string)
+	After  []func(w *Writers, action string)
 	// differential memory shared by all worlds of one search
 	Mem *Memory
 	// bookkeeping for oracles
@@ -341,6 +346,13 @@ func (w *Writers) Enabled() []string {
 			out = append(out, fmt.Sprintf("e%d:%s", i, w.Ops[0].Name))
 		}
 	}
+	if w.AbortedLoad {
+		for i := 0; i < w.N; i++ {
+			if w.Stores[i].OpLog().Len() > 0 {
+				out = append(out, fmt.Sprintf("K%d", i))
+			}
+		}
+	}
 	for i := 0; i < w.N; i++ {
 		for j := 0; j < w.N; j++ {
 			if i == j || w.Stores[j].OpLog().Len() == 0 {
@@ -376,6 +388,9 @@ func (w *Writers) Enabled() []string {
 				out = append(out, fmt.Sprintf("L%d", i))
 			}
 		}
+	}
+	if w.PartialReload && w.Observer && w.Stores[w.N].OpLog().Len() > 1 {
+		out = append(out, fmt.Sprintf("P%d", w.N))
 	}
 	if w.Snapshot {
 		for i := 0; i < w.N; i++ {
@@ -542,6 +557,12 @@ func (w *Writers) Do(a string) error {
 		} else if err != nil {
 			w.pending = append(w.pending, explore.Violation{Signature: "write-failed:" + opClass(name), Detail: fmt.Sprintf("%s: %v", a, err)})
 		}
+	case a[0] == 'K':
+		// a Load on the running store that fails at once (its context is cancelled): it changes nothing
+		i := int(a[1] - '0')
+		ctx, cancel := context.WithCancel(context.Background())
+		cancel()
+		_ = w.Stores[i].Load(ctx, -1)
 	case a[0] == 'e':
 		// a local write during which the write of `_localHeads` fails (one storage fault)
 		i := int(a[1] - '0')
@@ -628,6 +649,29 @@ func (w *Writers) Do(a string) error {
 		if after := w.SetKey(i); after != before {
 			// kept for the oracle of the property that names "load from disk" as a delivery route (C01)
 			w.Scratch["reload-changed-set"] = fmt.Sprintf("replica %d held {%s} before its restart and holds {%s} after Load(-1)", i, before, after)
+		}
+	case a[0] == 'P':
+		i := int(a[1] - '0')
+		_ = w.Inst[i].Close()
+		if err := sim.Quiesce(); err != nil {
+			return err
+		}
+		inst, err := w.Inst[i].Peer.Start(nil)
+		if err != nil {
+			return err
+		}
+		w.Inst[i] = inst
+		w.watch(i, inst)
+		for _, f := range w.OnRestart {
+			f(w, i)
+		}
+		s, err := inst.DB.Open(bg, w.Addr, &orbitdb.CreateDBOptions{Replicate: boolp(w.replicate[i])})
+		if err != nil {
+			return err
+		}
+		w.Stores[i] = s
+		if err := s.Load(bg, 1); err != nil {
+			w.pending = append(w.pending, explore.Violation{Signature: "load-error", Detail: fmt.Sprintf("replica %d: Load(1): %v", i, err)})
 		}
 	case a[0] == 'V':
 		i := int(a[1] - '0')
